@@ -255,7 +255,7 @@ pub fn fresh_replay(path: &str, timeout: f64) -> FreshReplay {
                     Some(0) => FreshReplay::Pass,
                     Some(1) => {
                         for line in out.lines() {
-                            if let Some(rest) = line.strip_prefix("REPLAY-VIOLATION ") {
+                            if let Some(rest) = line.find("REPLAY-VIOLATION ").map(|i| &line[i + "REPLAY-VIOLATION ".len()..]) {
                                 if let Ok(j) = Json::parse(rest) {
                                     if let Ok(v) = Violation::from_json(&j) {
                                         return FreshReplay::Fails(v);
@@ -304,6 +304,12 @@ fn died_violation(kind: &FreshReplay) -> Option<Violation> {
 /// Handle a shard that died or hung: recover the in-flight case, confirm it in a fresh process,
 /// minimise it by sub-process replays, and return the confirmed violation.
 fn handle_dead_shard(plan: &RunPlan, slot: &Slot, how: &str, rep: &mut EngineReport) -> Option<u64> {
+    if how == "hung" && rep.violations.iter().any(|(v, _)| v.oracle == "hang") {
+        // a hang has been established, minimised and reported already; the other shards run the
+        // same code and would each cost minutes to tell the same story
+        *rep.counters.entry("further_hung_shards_not_examined".to_string()).or_insert(0) += 1;
+        return None;
+    }
     let text = std::fs::read_to_string(&slot.cur).unwrap_or_default();
     let mut lines = text.lines();
     let marker = lines.next().unwrap_or("");
@@ -419,7 +425,8 @@ pub fn run_engine(plan: &RunPlan) -> EngineReport {
                             rep.harness_errors.push(format!("shard {}: more than 64 cases stopped by the memory guard in one range", slot.serial));
                         }
                     } else if let Some(next) = handle_dead_shard(plan, &slot, &how, &mut rep) {
-                        if next < slot.to && rep.violations.len() < 4 {
+                        // one hang is enough: each further one costs minutes to establish
+                        if next < slot.to && rep.violations.len() < 4 && !rep.violations.iter().any(|(v, _)| v.oracle == "hang") {
                             slots.push(spawn_shard(plan, &work, serial, next, slot.to));
                             serial += 1;
                         }
@@ -449,7 +456,7 @@ pub fn run_engine(plan: &RunPlan) -> EngineReport {
                 let _ = slot.child.kill();
                 let _ = slot.child.wait();
                 if let Some(next) = handle_dead_shard(plan, &slot, "hung", &mut rep) {
-                    if next < slot.to && rep.violations.len() < 4 {
+                    if next < slot.to && rep.violations.len() < 4 && !rep.violations.iter().any(|(v, _)| v.oracle == "hang") {
                         slots.push(spawn_shard(plan, &work, serial, next, slot.to));
                         serial += 1;
                     }
